@@ -167,6 +167,11 @@ def run(rep, tier, seed):
                         resid(rep, sig, det, "lambda(t) equals the constructed series", ld[:, p], numpy.array(cols).T, sc)
                     resid(rep, sig, det, "A Q = Q diag(lambda)", tdot(A, Qd), tdot(Qd, diag_poly(ld, 3, 3)), sc)
                     resid(rep, sig, det, "Q^T Q = I", tdot(tT(Qd), Qd), eye_poly(D, P, 3), 1.0)
+                    if all(r["b"] == 1 for r in pack):
+                        # distinct eigenvalues, matrix scaled by 1e-9 and the threshold lowered accordingly: eigenvalues scale
+                        l2, Q2 = algopy.eigh(UTPM(A * 1e-9), epsilon=1e-14)
+                        resid(rep, sig, det, "eigh(1e-9 A, epsilon=1e-14): eigenvalues scale", l2.data * 1e9, ld, sc)
+                        resid(rep, sig, det, "eigh(1e-9 A, epsilon=1e-14): A Q = Q diag(lambda)", tdot(A, Q2.data), tdot(Q2.data, diag_poly(l2.data * 1e9, 3, 3)), sc)
                 elif kind == "svd32":
                     ss = get("s")
                     U, s, V = algopy.svd(Au)
